@@ -25,7 +25,7 @@ Fld(f, n, a) == <<"f", f, n, a>>          \* n bytes bound to field f; a: "r" ra
 MinW(n) == IF n < 253 THEN 1 ELSE IF n <= 65535 THEN 3 ELSE 5
 VI(n)   == VIW(n, MinW(n))
 
-Width(t) == CASE t[1] = "u8" -> 1 [] t[1] = "u32" -> 4 [] t[1] = "viw" -> t[3] [] t[1] = "f" -> t[3]
+Width(t) == CASE t[1] = "u8" -> 1 [] t[1] = "u32" -> 4 [] t[1] = "viw" -> t[3] [] t[1] = "vihi" -> 9 [] t[1] = "f" -> t[3]
 RECURSIVE SumW(_, _)
 SumW(toks, i) == IF i > Len(toks) THEN 0 ELSE Width(toks[i]) + SumW(toks, i + 1)
 ByteLen(toks) == SumW(toks, 1)
@@ -122,6 +122,8 @@ IsTok(t, kind) == Len(t) > 0 /\ t[1][1] = kind
 DecU8(t)  == IF IsTok(t, "u8") THEN Okay(t[1][2], Tail(t)) ELSE Fail
 DecU32(t) == IF IsTok(t, "u32") THEN Okay(t[1][2], Tail(t)) ELSE Fail
 \* varint: non-minimal width is rejected
+\* <<"vihi", n>> is the CompactSize 2^32 + n (nine bytes, minimal): it exceeds every bound a decoder has (MaxVec bytes, MaxVec / size_of
+\* elements), so every reader of a length or count refuses it -- in particular it must not be taken for n
 DecVI(t)  == IF IsTok(t, "viw") /\ t[1][3] = MinW(t[1][2]) THEN Okay(t[1][2], Tail(t)) ELSE Fail
 \* n raw bytes with an acceptable attribute
 DecFld(t, n, attrs) == IF IsTok(t, "f") /\ t[1][3] = n /\ t[1][4] \in attrs
@@ -316,8 +318,15 @@ NormParams(p) ==
 \* header version classes (always < 2^31 in memory); the dynafed marker is bit 31 on the wire
 VersionWire(v, dyn) == CASE v = "20000000" -> IF dyn THEN "a0000000" ELSE "20000000"
                          [] v = "1" -> IF dyn THEN "80000001" ELSE "1"
+                         [] v = "60000000" -> IF dyn THEN "e0000000" ELSE "60000000"      \* bit 30 is an ordinary version bit
+                         [] v = "7fffffff" -> IF dyn THEN "ffffffff" ELSE "7fffffff"
+                         \* in memory only: the marker bit already set in the version field (the serializer ORs the marker in, so a dynafed
+                         \* header keeps its wire form; such a value is not what decoding that wire form returns)
+                         [] v = "a0000000" -> "a0000000"
 VersionOfWire(w) == CASE w = "a0000000" -> [v |-> "20000000", dyn |-> TRUE] [] w = "20000000" -> [v |-> "20000000", dyn |-> FALSE]
                       [] w = "80000001" -> [v |-> "1", dyn |-> TRUE] [] w = "1" -> [v |-> "1", dyn |-> FALSE]
+                      [] w = "e0000000" -> [v |-> "60000000", dyn |-> TRUE] [] w = "60000000" -> [v |-> "60000000", dyn |-> FALSE]
+                      [] w = "ffffffff" -> [v |-> "7fffffff", dyn |-> TRUE] [] w = "7fffffff" -> [v |-> "7fffffff", dyn |-> FALSE]
 IsDyn(h) == h.ext.kind = "dynafed"
 EncHeaderCommon(h) == << U32(VersionWire(h.version, IsDyn(h))), Fld(h.prev, 32, "r"), Fld(h.mroot, 32, "r"), U32(h.time), U32(h.height) >>
 EncExt(e) == IF e.kind = "proof" THEN EncVarBytes(e.challenge) \o EncVarBytes(e.solution)
